@@ -30,6 +30,10 @@ PINS = {
             ('pyworkers/process.py', 'ProcessWorker.is_alive'), ('pyworkers/process.py', 'ProcessWorker.wait'), ('pyworkers/process.py', 'ProcessWorker.terminate'),
             ('pyworkers/persistent_process.py', 'PersistentProcessWorker.wait'), ('pyworkers/persistent_process.py', 'PersistentProcessWorker.close'),
             ('pyworkers/persistent_process.py', 'PersistentProcessWorker._release_child'), ('pyworkers/utils.py', 'PipeEndpoint')],
+    'C11': [('pyworkers/remote_server.py', 'RemoteServer.run'), ('pyworkers/remote_server.py', 'RemoteServer.__init__')],
+    'C18': [('pyworkers/remote_server.py', 'RemoteServer.run'), ('pyworkers/remote_context.py', 'RemoteContext')],
+    'C20': [('pyworkers/remote.py', 'RemoteWorker._start'), ('pyworkers/remote.py', 'RemoteWorker._run_frontend'), ('pyworkers/remote.py', 'RemoteWorker.__setstate__'),
+            ('pyworkers/process.py', 'ProcessWorker._start'), ('pyworkers/thread.py', 'ThreadWorker._start')],
     'C05': [('pyworkers/persistent.py', 'PersistentWorker.next_result'), ('pyworkers/persistent.py', 'PersistentWorker.results_iter'),
             ('pyworkers/persistent.py', 'PersistentWorker.call')],
 }
